@@ -392,6 +392,21 @@ def _r3_leaves(run):
     r = ev.run(_common.splice(project, f).node)      # a generator helper producing the (keyword, value) cards is spliced into its loop
     stores = [e for e in r.events if e.kind == "store" and e.term[1][0][0] == "sub" and e.term[1][0][2] in (("const", "DATAMIN"), ("const", "DATAMAX"))]
     arr = ("call", ("attr", ("sym", "self"), "asarray"), (), ())
+    # a reducer applied to the finite pixels only (infinities turned into NaN, or selected away) is the same card source, and the
+    # one the property asks for ("minimum and maximum finite data value"); remember whether the filter is there (F15)
+    _np = lambda n_: ("attr", ("sym", "np"), n_)
+    finite_views = [("call", _np("where"), (("call", _np("isinf"), (arr,), ()), _np("nan"), arr), ()),
+                    ("sub", arr, ("call", _np("isfinite"), (arr,), ()))]
+    filtered = {}
+    for red_ in ("nanmin", "nanmax", "min", "max"):
+        for fv in finite_views:
+            old_t = ("call", _np(red_), (fv,), ())
+            new_t = ("call", _np("nan" + red_.replace("nan", "")), (arr,), ())
+            for e in stores:
+                if sym.contains(e.term, old_t) or any(c_[0] != "loop" and sym.contains(c_[0], old_t) for c_ in e.pc):
+                    filtered[red_.replace("nan", "")] = True
+                    e.term = sym._replace(e.term, old_t, new_t)
+                    e.pc = tuple(c_ if c_[0] == "loop" else (sym._replace(c_[0], old_t, new_t), c_[1]) for c_ in e.pc)
     bad = []
     undecided_keys = []
     for key, pname, red in (("DATAMIN", "min_value", "nanmin"), ("DATAMAX", "max_value", "nanmax")):
@@ -464,6 +479,15 @@ def _r3_leaves(run):
         run.undecided("C14.R3", f, None, "Image.save: cannot follow how %s reaches the header" % "/".join(undecided_keys), kind="save-range-shape")
     else:
         run.holds("C14.R3", f, None, "save: DATAMIN/DATAMAX <- explicit parameter, else nanmin/nanmax of the array (finite only)")
+        # ... but "finite only" holds for NaN alone: np.nanmin / np.nanmax skip NaN, not +-inf.  A leaf holding one infinite pixel
+        # gets a non-finite extreme, hence no card at all, and its finite extreme is lost for every ancestor (F15).  The reducer
+        # applied to the image's own array without a finite filter is definite by numpy's semantics.
+        if not (filtered.get("min") and filtered.get("max")):
+          run.violated("C14.R3", f, mine[0].node if mine else None, "Image.save computes the range with np.nanmin / np.nanmax over the whole array: an infinite pixel makes the "
+                       "extreme non-finite, the card is then omitted, and the minimum / maximum *finite* value of that leaf never reaches its ancestors or the WTML",
+                       kind="range-ignores-infinities")
+        else:
+            run.holds("C14.R3", f, None, "save: the array range is taken over the finite pixels only (infinities filtered before the reducer)")
     # (b) leaf writers pass no explicit range
     n = 0
     for q in (PYR + ".PyramidIO.update_image", "toasty.study.StudyTiling.tile_image", "toasty.toast.ToastSampler.visit_callback"):
